@@ -1847,7 +1847,7 @@ func (p *wat2X64Worker) buildFunc_ins(
 			regArg2 = "rdx"
 		}
 
-		fmt.Fprintf(w, "    # memory.init")
+		fmt.Fprintf(w, "    # memory.init\n")
 		fmt.Fprintf(w, "    mov  %s, qword ptr [rip+%s]\n", regArg0, kMemoryAddrName)
 		fmt.Fprintf(w, "    mov  eax, dword ptr [rbp%+d]\n", dst)
 		fmt.Fprintf(w, "    add  %s, rax\n", regArg0)
